@@ -4,7 +4,24 @@ import GeodeVerif.Lemmas.C08Lemmas
 
 The model is tied to `/repo/geodepy/angles.py` by the bit-exact correspondence
 (`harness/corr_angles.py`); these theorems are about the same generic definitions read in exact
-arithmetic.
+arithmetic. The model follows the code WITH `tools/proposed_fixes/C08-1.diff` and `C08-2.diff`.
+
+1. `dec2dms_exact`, `dec2ddm_exact` — fields in range, exact value, sign kept (incl. (−1°, 0))
+2. `hp2dec_spec`, `hp2dec_exact` — accepted iff minutes and seconds fields < 60; value
+   `± (D + M/60 + S/3600)`
+3. `dec2hp_spec`, `dec2hp_close`, `dec2hp_valid`, `dec2hpa_ok` — output digits valid (carry into
+   minutes and degrees), reads back within `hpTol` (0.5e-9″ below 512°, 0.5e-8″ from 512°)
+4. `hpangle_accepts_iff_valid`
+5. `gon_exact`
+6. `ctor_sign_dms`, `ctor_sign_ddm`, `ctor_fields_dms` (any arithmetic, binary64 included)
+7. objects: `dms_neg`, `dms_abs`, `ddm_neg`, `ddm_abs`, `dms_ddm`, `ddm_dms`, `hp2dms_exact`,
+   `hp2ddm_exact`, `fromDec_sound`
+8. `hop_sound`, `chain_closed_any`, `chain_closed`, `same_sign` — any chain, by induction on the list
+9. `dms_hp_valid_unpatched_fails` (witness for the defect repaired by C08-1.diff), `dms_hp_valid`,
+   `ddm_hp_valid`
+Not at ℚ (binary64 only, covered by the exhaustive correspondence + search): the behaviour from
+512° up that C08-2.diff repairs; `.rad()`, `dd2sec`, `dec2hp_v`, `hp2dec_v` are outside the chain
+theorem (no rational reading / vectorised forms), they are in the correspondence and the search.
 -/
 namespace GeodeVerif.C08
 open Ang Py
@@ -575,7 +592,7 @@ theorem hp2ddm_exact (hp : ℚ) :
   simp only [hp2ddm, q_ofNat, Nat.cast_ofNat]
   rw [h1, h2, h3, mkDDM_some _ _ hm, ddm_dec]
   refine ⟨?_, hm⟩
-  simp only [q_leb, q_ofNat, Nat.cast_zero, ddmMag, hpAngle]
+  simp only [q_leb, Nat.cast_zero, ddmMag, hpAngle]
   by_cases hx : 0 ≤ hp
   · simp only [hx, decide_true, if_true]; ring
   · simp only [hx, decide_false, Bool.false_eq_true, if_false]; ring
@@ -1080,5 +1097,47 @@ theorem same_sign {a b δ : ℚ} (h : |b - a| ≤ δ) (hδ : δ < |a|) : (0 < a 
 
 example : ChainTyped .dec [.dec2dms, .mHp, .hp2ddm, .mDec] .dec :=
   .cons rfl (.cons rfl (.cons rfl (.cons rfl (.nil _))))
+
+/-! ### 9. the defect repaired by `tools/proposed_fixes/C08-1.diff`
+
+Before the patch `DMSAngle.hp()` was `degree + minute/100 + second/10000` (and `DDMAngle.hp()`
+likewise): seconds within `5·10⁻¹⁰` of 60 — which `dec2dms` produces for whole-minute angles such
+as 16°13′ — were written into the HP digits as `x.xx5999…`, which at HP resolution reads `x.xx6`:
+60 seconds. The model follows the patched code (`dec2hp(self.dec())`); the statements below keep
+the witness. -/
+
+/-- `DMSAngle.hp()` as it was before the patch -/
+def dmsHpUnpatched (s : DMS ℚ) : ℚ :=
+  let v := (s.degree : ℚ) + (s.minute : ℚ) / 100 + s.second / 10000
+  if s.positive then v else -v
+
+/-- **dms_hp_valid_fails** (unpatched formula): the well-formed object 16° 12′ 59.99999999999″
+(what `dec2dms` returns in binary64 for 16°13′) is turned into an HP value that `hp2dec` and
+`HPAngle` reject. -/
+theorem dms_hp_valid_unpatched_fails :
+    ¬ ∀ s : DMS ℚ, 0 ≤ s.second → s.second < 60 → s.minute < 60 →
+        ∃ y, hp2dec (dmsHpUnpatched s) = .ok y := by
+  intro h
+  obtain ⟨y, hy⟩ := h ⟨true, 16, 12, 60 - 1 / 10 ^ 11⟩ (by norm_num) (by norm_num) (by norm_num)
+  have hv := (hp_valid_of_ok hy).1
+  have hN : hpN (dmsHpUnpatched ⟨true, 16, 12, 60 - 1 / 10 ^ 11⟩) = 161260000000000 := by
+    unfold hpN dmsHpUnpatched rhe
+    have hfl : ⌊|(((16 : ℕ) : ℚ) + ((12 : ℕ) : ℚ) / 100 + (60 - 1 / 10 ^ 11) / 10000)| * 10 ^ 13⌋ = 161259999999999 := by
+      rw [Int.floor_eq_iff]
+      constructor <;> norm_num [abs_of_pos]
+    simp only [if_true]
+    rw [hfl]
+    norm_num [abs_of_pos]
+  rw [hN] at hv
+  unfold HpValid at hv
+  norm_num at hv
+
+/-- with the patch (`dec2hp(self.dec())`) the HP value of every DMS object is valid and denotes the
+object's angle within `hpTol` -/
+theorem dms_hp_valid (s : DMS ℚ) : ∃ y, hp2dec s.hp = .ok y ∧ |y - s.dec| ≤ hpTol s.dec :=
+  dec2hp_close s.dec
+
+theorem ddm_hp_valid (s : DDM ℚ) : ∃ y, hp2dec s.hp = .ok y ∧ |y - s.dec| ≤ hpTol s.dec :=
+  dec2hp_close s.dec
 
 end GeodeVerif.C08
